@@ -420,6 +420,29 @@ theorem C15_no_state_but_setup {V : Type} [PyVal V] (ops : List (Op V)) (i : Ins
     (h : i.dag.isSetup n = false) : (runHistory i ops).res n = i.res n :=
   VM.runHistory_res_nonsetup ops i n h
 
+/-- C11, why reuse is harmless: in a DAG whose setup region `S` is closed under all references and holds no
+    parameter (what the build-time validation enforces: a setup node depends on setup nodes and constants only),
+    the value any call computes on `S` does not depend on the call's arguments. -/
+theorem C11_setup_value_independent_of_arguments {V : Type} [PyVal V] (i : Inst V) (sel : List TM.Node) (S : TM.Node → Bool)
+    (hcl : regionClosedB i.dag.recOf sel S = true) (hpar : ∀ p ∈ i.dag.params, S p = false) (args1 args2 : List V) :
+    AgreeOn S (den (opCfg i (.call sel args1))) (den (opCfg i (.call sel args2))) :=
+  VM.setup_value_independent_of_arguments i sel S hcl hpar args1 args2
+
+/-- C15, semantic form: after ANY history of calls of one selection on an instance — any arguments, succeeding or
+    failing — the next call computes on every node exactly what it computes on the instance the history started
+    from.  On a freshly built DAG: the k-th call returns what a first call with the same arguments returns. -/
+theorem C15_call_after_history_is_fresh {V : Type} [PyVal V] (i : Inst V) (sel : List TM.Node) (S : TM.Node → Bool)
+    (hS : SetupRegion i sel S) (hwf : ∀ (j : Inst V) (op : Op V), WF (opCfg j op))
+    (history : List (List V)) (args : List V) (x : TM.Node) :
+    den (opCfg (runHistory i (history.map (Op.call sel))) (.call sel args)) x = den (opCfg i (.call sel args)) x :=
+  VM.C15_call_after_history_is_fresh i sel S hS hwf history args x
+
+-- non-vacuity: a table with a setup node (0), a parameter holder (2) and a node (1) reading both has a setup region
+example : SetupRegion (V := VD.Val)
+    ⟨⟨[0, 1], fun n => if n = 1 then ⟨"f", [⟨0, []⟩, ⟨2, []⟩], [], none⟩ else ⟨"s", [], [], none⟩,
+       fun n => n == 0, VD.interp, [2]⟩, fun _ => none⟩ [0, 1] (fun n => n == 0) :=
+  ⟨fun n h => h, by decide, by intro p hp; simp at hp; subst hp; rfl⟩
+
 /-- C18: a restart seeded with the values a caching run computed computes the same results, and the
     cached nodes are not part of its execution graph (hence, by C03, never entered). -/
 theorem C18_restart_same {V : Type} [PyVal V] (c : ECfg V) (f : TM.Node → Bool) (hwf : WF c)
